@@ -210,15 +210,18 @@ SweepEnd(cbRet, eHit, vHit) ==
   /\ UNCHANGED <<cfg, i, Ir, Ic, sh, pend, m, mc, mplain, nsw, cache, req, ncall, exact>>
 
 (* ---- returns ------------------------------------------------------------ *)
+\* An interruption inside a sweep returns cores 0..i-1 of this sweep, the pending factor folded into core i, and the
+\* cores of the previous half-sweep: if the tensor was exact at the last sweep end it still is (every rebuilt core is an
+\* exact skeleton step on index sets of full rank), so the prediction survives the early return.
 RetFoldL ==    \* Y[i] = R . Y[i]
   /\ pc = "retL" /\ pc' = "ret"
   /\ sh' = [sh EXCEPT ![i] = <<pend[1], sh[i][2], sh[i][3]>>]
-  /\ exact' = FALSE
+  /\ exact' = exact
   /\ UNCHANGED <<cfg, i, Ir, Ic, pend, m, mc, mplain, nsw, stop, cache, req, ncall, rs>>
 RetFoldR ==    \* Y[i] = Y[i] . R
   /\ pc = "retR" /\ pc' = "ret"
   /\ sh' = [sh EXCEPT ![i] = <<sh[i][1], sh[i][2], pend[2]>>]
-  /\ exact' = FALSE
+  /\ exact' = exact
   /\ UNCHANGED <<cfg, i, Ir, Ic, pend, m, mc, mplain, nsw, stop, cache, req, ncall, rs>>
 Return ==
   /\ pc = "ret" /\ pc' = "done"
